@@ -126,6 +126,7 @@ type step struct {
 	Cluster  *clusterSpec `json:"cluster,omitempty"`
 	Name     string       `json:"name,omitempty"`
 	Ready    []int        `json:"ready,omitempty"` // waitready: these stubs must be ready endpoints of Name
+	Only     []int        `json:"only,omitempty"`  // waitready: look at these stubs only (the others are judged by pokelive)
 	N        int          `json:"n,omitempty"`        // pops: number of picks
 	G        int          `json:"g,omitempty"`        // pops: concurrent pickers; slots: the limit expected (stop re-measuring when reached)
 	How      string       `json:"how,omitempty"`      // finish: go | cancel
@@ -304,6 +305,7 @@ type world struct {
 	infos   map[*clusters.ClusterInfo]bool
 	pickers map[string]clusters.EndpointPicker
 	disabledBySpec map[string]map[int]bool // cluster -> stubs its latest object lists as disabled
+	listedBySpec   map[string]map[int]bool // cluster -> stubs its latest object lists at all
 	cancels map[string]context.CancelFunc // client side of asynchronous requests (step "finish" how=cancel)
 	epSeen  map[*clusters.EndpointInfo]string // every endpoint object ever seen in a cluster (url), for step "poke"
 }
@@ -628,7 +630,12 @@ func runScenario(t *testing.T, sc scenario) []ev {
 				w.disabledBySpec = map[string]map[int]bool{}
 			}
 			w.disabledBySpec[s.Cluster.Name] = map[int]bool{}
+			if w.listedBySpec == nil {
+				w.listedBySpec = map[string]map[int]bool{}
+			}
+			w.listedBySpec[s.Cluster.Name] = map[int]bool{}
 			for _, sv := range s.Cluster.Servers {
+				w.listedBySpec[s.Cluster.Name][sv.Stub] = true
 				want[w.stubs[sv.Stub].srv.URL] = want[w.stubs[sv.Stub].srv.URL] || sv.Disabled
 				if sv.Disabled {
 					w.disabledBySpec[s.Cluster.Name][sv.Stub] = true
@@ -691,14 +698,21 @@ func runScenario(t *testing.T, sc scenario) []ev {
 			e.TriggerHealthCheck()
 			w.add(ev{"k": "trigger", "stub": s.Stub})
 			if s.WaitArr {
-				w.await("probe", s.Stub, "probe at stub after trigger")
+				// (observed, not assumed: an endpoint without a live health-check loop does not probe)
+				probed := true
+				select {
+				case <-w.sigCh("probe", s.Stub):
+				case <-time.After(infraTimeout):
+					probed = false
+				}
+				w.add(ev{"k": "triggered", "name": s.Name, "stub": s.Stub, "probed": probed})
 			}
 		case "waitready":
 			ready := map[int]bool{}
 			for _, i := range s.Ready {
 				ready[i] = true
 			}
-			w.waitCond("readiness of "+s.Name, func() bool {
+			cond := func() bool {
 				ci, ok := w.ctrl.Get(s.Name)
 				if !ok {
 					return false
@@ -712,13 +726,56 @@ func runScenario(t *testing.T, sc scenario) []ev {
 					if w.disabledBySpec[s.Name][idx] {
 						continue // listed as disabled: that it is not used is the property's business, not something to wait for
 					}
+					if len(s.Only) > 0 {
+						skip := true
+						for _, o := range s.Only {
+							skip = skip && o != idx
+						}
+						if skip {
+							continue
+						}
+					}
 					if e.IsReady() != ready[idx] {
 						return false
 					}
 				}
 				return true
-			})
-			w.add(ev{"k": "ready", "name": s.Name, "ready": s.Ready})
+			}
+			// the expectation (the gateway's view of every enabled endpoint is what its upstream answers) is OBSERVED, not assumed: when the view
+			// has not followed after 3 s, every enabled endpoint is asked for a probe once more and a full health-check interval is waited; a view
+			// that still differs is recorded and judged
+			timedOut := false
+			deadline := time.Now().Add(infraTimeout)
+			for !cond() {
+				if time.Now().After(deadline) {
+					if timedOut {
+						break
+					}
+					timedOut = true
+					if ci, ok := w.ctrl.Get(s.Name); ok {
+						for _, ep := range ci.AllEndpoints() {
+							if e, _ := ci.Endpoints.Load(ep); e != nil && !w.disabledBySpec[s.Name][w.stubOfEndpoint(ep)] {
+								e.TriggerHealthCheck()
+							}
+						}
+					}
+					deadline = time.Now().Add(6500 * time.Millisecond)
+				}
+				time.Sleep(time.Millisecond)
+			}
+			if !cond() {
+				got := []int{}
+				if ci, ok := w.ctrl.Get(s.Name); ok {
+					for _, ep := range ci.AllEndpoints() {
+						if e, _ := ci.Endpoints.Load(ep); e != nil && e.IsReady() {
+							got = append(got, w.stubOfEndpoint(ep))
+						}
+					}
+				}
+				w.add(ev{"k": "ready", "name": s.Name, "ready": s.Ready, "only": s.Only, "timeout": true, "got": got})
+				continue
+			}
+			w.add(ev{"k": "ready", "name": s.Name, "ready": s.Ready, "only": s.Only})
 		case "req":
 			if s.Resp != nil {
 				w.mu.Lock()
@@ -995,6 +1052,35 @@ func runScenario(t *testing.T, sc scenario) []ev {
 			w.add(ev{"k": "own", "h": s.H, "c": s.C})
 		case "poke":
 			w.poke()
+		case "pokelive":
+			// every endpoint the latest object lists as ENABLED must have a live health-check loop: asked for a probe (what the dispatcher does
+			// after a proxy error) it probes, and the gateway's view of it then is what its upstream answered.  Observed, not waited for
+			for idx := range w.stubs {
+				if !w.listedBySpec[s.Name][idx] || w.disabledBySpec[s.Name][idx] {
+					continue
+				}
+				e := ev{"k": "pokelive", "name": s.Name, "stub": idx, "probed": false, "ready": false}
+				st := w.stubs[idx]
+				st.mu.Lock()
+				e["health"] = st.health
+				st.mu.Unlock()
+				if ci, ok := w.ctrl.Get(s.Name); ok {
+					if ep, ok := ci.Endpoints.Load(st.srv.URL); ok {
+						w.drain("probe", idx)
+						ep.TriggerHealthCheck()
+						select {
+						case <-w.sigCh("probe", idx):
+							e["probed"] = true
+						case <-time.After(2 * time.Second):
+						}
+						for k := 0; k < 40 && ep.IsReady() != (e["health"] == "ok" || e["health"] == ""); k++ {
+							time.Sleep(25 * time.Millisecond)
+						}
+						e["ready"] = ep.IsReady()
+					}
+				}
+				w.add(e)
+			}
 		case "sleep":
 			time.Sleep(time.Duration(s.N) * time.Millisecond)
 		case "quiesce":
